@@ -102,6 +102,8 @@ def generate(tier, rng):
                 ops.append({"op": "link", "t": t, "kw": kw})
                 if userclass and rng.random() < 0.4:
                     ops[-1]["cls"] = "user"          # a link of a user subclass that has a class attribute `kind`
+                elif rng.random() < 0.12:
+                    ops[-1]["cls"] = "prop"          # a user link class whose `target` is a property
                 links.add(n)
                 final[n] = final[t]
                 n += 1
